@@ -54,6 +54,7 @@ fn main() {
         "c18-trait" => ceremony::c18(&arg),
         "rpid-web" => guarded(move || rpid::web(&arg)),
         "rpid-android" => guarded(move || rpid::android(&arg)),
+        "origin-text" => guarded(move || rpid::origin_text(&arg)),
         "hid-packets" => guarded(move || hid::packets_no_panic(&arg)),
         "hid-roundtrip" => guarded(move || hid::roundtrip(&arg)),
         _ => (false, false, format!("unknown entry {entry}")),
